@@ -3,6 +3,6 @@ CONSTANTS
   NumRetries = {0, 2, 5}
   Defects = {}
 SPECIFICATION Spec
-INVARIANTS WithinGlobalTimeout ActionsAppliedOnce AttemptsBounded FreshHost RetryMade ReplyIsLast EmitCase
+INVARIANTS WithinGlobalTimeout ActionsAppliedOnce AttemptsBounded FreshHost RetryMade ReplyIsLast BudgetSpentOnAttempts EmitCase
 PROPERTY RetryOnlyIfConfigured
 CHECK_DEADLOCK FALSE
